@@ -24,34 +24,36 @@ theorem Proved.all_eq {α : Type} (l : List α) (f g : α → Bool) (h : ∀ x, 
 /-- what the executable predicate says about a pair of schemas -/
 theorem Proved.pairOK_spec (up : Bool) (dbO dbN : DB) (h : Proved.pairOK up dbO dbN = true) :
     (∀ tb ∈ dbO ++ dbN, tb.name ≠ "" ∧ tb.name ≠ Migration.defaultMigrationTable) ∧
-    (∀ tb ∈ dbO ++ dbN, tb.fks = []) ∧
     (∀ tbO ∈ dbO, ∀ tbN ∈ dbN, tbO.name = tbN.name →
       Abs.OrderCompatible tbN.colNames tbO.colNames ∧ (∀ n ∈ tbN.colNames ++ tbO.colNames, n ≠ "") ∧ tbO.pk = tbN.pk ∧
       (∀ s ∈ tbN.idxs, ∀ o ∈ tbO.idxs, o.name = s.name → o ≠ s →
-        if up then ∃ c ∈ o.cols, c ∈ tbN.colNames else ∃ c ∈ s.cols, c ∈ tbO.colNames)) := by
+        if up then ∃ c ∈ o.cols, c ∈ tbN.colNames else ∃ c ∈ s.cols, c ∈ tbO.colNames) ∧
+      (∀ s ∈ tbN.fks, ∀ o ∈ tbO.fks, s.name = o.name → s = o)) := by
   unfold Proved.pairOK at h
   simp only [Bool.and_eq_true] at h
   obtain ⟨h1, h2⟩ := h
   have ht : ∀ tb ∈ dbO ++ dbN, Proved.tableOK tb = true := List.all_eq_true.mp h1
-  refine ⟨?_, ?_, ?_⟩
+  refine ⟨?_, ?_⟩
   · intro tb htb
     have := ht tb htb
     unfold Proved.tableOK at this
     simp only [Bool.and_eq_true, bne_iff_ne, ne_eq] at this
-    exact ⟨this.1.1, this.1.2⟩
-  · intro tb htb
-    have := ht tb htb
-    unfold Proved.tableOK at this
-    simp only [Bool.and_eq_true] at this
-    exact List.isEmpty_iff.mp this.2
+    exact ⟨this.1, this.2⟩
   · intro tbO htbO tbN htbN hn
     have := List.all_eq_true.mp (List.all_eq_true.mp h2 tbO htbO) tbN htbN
     have hne : (tbO.name != tbN.name) = false := by simp [hn]
     rw [hne, Bool.false_or] at this
     unfold Proved.bothOK at this
     simp only [Bool.and_eq_true, beq_iff_eq] at this
-    obtain ⟨⟨⟨hoc, hnm⟩, hpk⟩, hidx⟩ := this
-    refine ⟨hoc, ?_, hpk, ?_⟩
+    obtain ⟨⟨⟨⟨hoc, hnm⟩, hpk⟩, hidx⟩, hfk⟩ := this
+    refine ⟨hoc, ?_, hpk, ?_, ?_⟩
+    rotate_left 2
+    · intro s hs o ho hon
+      have := List.all_eq_true.mp (List.all_eq_true.mp hfk s hs) o ho
+      simp only [Bool.or_eq_true, bne_iff_ne, ne_eq, decide_eq_true_eq] at this
+      rcases this with h' | h'
+      · exact absurd hon h'
+      · exact h'
     · intro n hn'
       have := List.all_eq_true.mp hnm n hn'
       simpa using this
@@ -89,12 +91,12 @@ theorem proved_up (g : Globals) (rc : Bool) (old new : List Stmt) (dbO dbN : DB)
   unfold Proved.up at h
   simp only [Bool.and_eq_true] at h
   obtain ⟨hg, ho, hn, hpo, hpn⟩ := Proved.scripts_spec g old new h.1
-  obtain ⟨hnm, hnofk, hboth⟩ := Proved.pairOK_spec true dbO dbN h.2
+  obtain ⟨hnm, hboth⟩ := Proved.pairOK_spec true dbO dbN h.2
   exact schema_up_any g hg rc old new dbO dbN ho hn hpo hpn heo hen
-    (fun tb htb => (hnm tb htb).2) hnofk
+    (fun tb htb => (hnm tb htb).2)
     (fun a ha b hb e => by
-      obtain ⟨x1, x2, x3, x4⟩ := hboth a ha b hb e
-      refine ⟨x1, x2, x3, ?_⟩
+      obtain ⟨x1, x2, x3, x4, x5⟩ := hboth a ha b hb e
+      refine ⟨x1, x2, x3, ?_, x5⟩
       intro dc hdc s hs o ho' hon hne
       obtain ⟨c, hc, hcN⟩ := x4 s hs o ho' hon hne
       exact ⟨c, hc, fun hcd => hdc c hcd hcN⟩)
@@ -107,12 +109,12 @@ theorem proved_down (g : Globals) (rc : Bool) (old new : List Stmt) (dbO dbN : D
   unfold Proved.down at h
   simp only [Bool.and_eq_true] at h
   obtain ⟨hg, ho, hn, hpo, hpn⟩ := Proved.scripts_spec g old new h.1
-  obtain ⟨hnm, hnofk, hboth⟩ := Proved.pairOK_spec false dbO dbN h.2
+  obtain ⟨hnm, hboth⟩ := Proved.pairOK_spec false dbO dbN h.2
   exact schema_down_any g hg rc old new dbO dbN ho hn hpo hpn heo hen
-    (fun tb htb => (hnm tb htb).2) hnofk
+    (fun tb htb => (hnm tb htb).2)
     (fun a ha b hb e => by
-      obtain ⟨x1, x2, x3, x4⟩ := hboth a ha b hb e
-      refine ⟨x1, x2, x3, ?_⟩
+      obtain ⟨x1, x2, x3, x4, x5⟩ := hboth a ha b hb e
+      refine ⟨x1, x2, x3, ?_, x5⟩
       intro dc hdc s hs o ho' hon hne
       obtain ⟨c, hc, hcO⟩ := x4 s hs o ho' hon hne
       exact ⟨c, hc, fun hcd => hdc c hcd hcO⟩)
@@ -125,13 +127,13 @@ theorem proved_both (g : Globals) (rc : Bool) (old new : List Stmt) (dbO dbN : D
   unfold Proved.both Proved.up Proved.down at h
   simp only [Bool.and_eq_true] at h
   obtain ⟨hg, ho, hn, hpo, hpn⟩ := Proved.scripts_spec g old new h.1.1
-  obtain ⟨hnm, hnofk, hbothU⟩ := Proved.pairOK_spec true dbO dbN h.1.2
-  obtain ⟨_, _, hbothD⟩ := Proved.pairOK_spec false dbO dbN h.2.2
-  exact schema_c03_any g hg rc old new dbO dbN ho hn hpo hpn heo hen (fun tb htb => (hnm tb htb).2) hnofk
+  obtain ⟨hnm, hbothU⟩ := Proved.pairOK_spec true dbO dbN h.1.2
+  obtain ⟨_, hbothD⟩ := Proved.pairOK_spec false dbO dbN h.2.2
+  exact schema_c03_any g hg rc old new dbO dbN ho hn hpo hpn heo hen (fun tb htb => (hnm tb htb).2)
     (fun a ha b hb e => by
-      obtain ⟨x1, x2, x3, x4⟩ := hbothU a ha b hb e
-      obtain ⟨_, _, _, y4⟩ := hbothD a ha b hb e
-      refine ⟨x1, x2, x3, ?_, ?_⟩
+      obtain ⟨x1, x2, x3, x4, x5⟩ := hbothU a ha b hb e
+      obtain ⟨_, _, _, y4, _⟩ := hbothD a ha b hb e
+      refine ⟨x1, x2, x3, ?_, ?_, x5⟩
       · intro dc hdc s hs o ho' hon hne
         obtain ⟨c, hc, hcN⟩ := x4 s hs o ho' hon hne
         exact ⟨c, hc, fun hcd => hdc c hcd hcN⟩
